@@ -57,7 +57,8 @@ VERD = {
     "UNKNOWN": "unknown",
 }
 
-CAPS = dict(cap_axis=12, cap_total=20000)
+CAPS = dict(cap_axis=12, cap_total=4096)
+CAPS_DERIV = dict(cap_axis=12, cap_total=1024)  # exact df/ds with dual numbers is ~5x dearer per point
 
 
 def _mts():
@@ -413,7 +414,7 @@ def judge(kind, f, s, bounds, flag, verdict):
             bad = {"point": _sym_of(bounds, st["at"]), "f": R.fr(st["f"]), f"f({s}+1)": R.fr(st["f_next"]),
                    "demand": f"f non-increasing in {s}"}
         if bad is None and claim != "unknown" and R.is_step_free(f):
-            q = R.deriv_profile(f, s, bounds, **CAPS)
+            q = R.deriv_profile(f, s, bounds, **CAPS_DERIV)
             if "undefined_at" not in q:
                 if claim in ("geq0", "eq0") and q["min"] < 0:
                     bad = {"point": _sym_of(bounds, q["argmin"]), "df/ds": R.fr(q["min"]), "demand": "df/ds >= 0"}
@@ -580,7 +581,7 @@ def synth_family(allowed: frozenset, quick: bool):
     if "Heaviside" in allowed:
         steps += [sympy.Heaviside(x) for x in sums if x.free_symbols]
     steps = [e for e in _dedupe(steps) if e.has(*R.STEP_KINDS)]
-    arith = {k: OPS_BIN[k] for k in "+-*/"}
+    arith = {k: OPS_BIN[k] for k in ("-*" if quick else "+-*/")}
     if quick:
         core = _apply_all(steps, mono, allowed, ops_bin=arith, ops_un={}) + \
             _apply_all(mono, steps, allowed, ops_bin=arith, ops_un={})
@@ -591,10 +592,11 @@ def synth_family(allowed: frozenset, quick: bool):
     have = set(d2)
     d3 = [e for e in _dedupe(core) if e not in have]
     info.update({"monomials": len(mono), "sums": len(sums), "steps": len(steps), "depth3-typed": len(d3)})
-    exprs = [e for e in d2 + d3 if kinds_of(e) <= allowed]
-    info["in_scope"] = len(exprs)
-    info["out_of_scope_dropped"] = len(d2) + len(d3) - len(exprs)
-    return exprs, info
+    d2 = [e for e in d2 if kinds_of(e) <= allowed]
+    d3 = [e for e in d3 if kinds_of(e) <= allowed]
+    info["in_scope"] = len(d2) + len(d3)
+    info["n_depth2"] = len(d2)
+    return d2 + d3, info
 
 
 def _dedupe(xs):
@@ -648,8 +650,14 @@ def synth_tree(chunks, quick):
         hb = his if b in f.free_symbols else (0,)
         if len(p) == 2:
             boxes = [(x, y) for x in ha for y in hb]
-            if quick and len(boxes) == 16:
-                boxes = [bx for bx in boxes if bx[0] == bx[1] or bx in ((1, 4), (4, 1), (2, 4), (4, 2))]
+            deep = p[1] >= _S["n_depth2"]  # typed depth-3 formulas come after the depth <= 2 ones
+            if quick:
+                if len(boxes) == 16 or deep:
+                    boxes = [boxes[-1]]  # hi = 4 for every symbol
+                else:
+                    boxes = [bx for bx in boxes if max(bx) in (0, 2, 4)]
+            elif deep:
+                boxes = [bx for bx in boxes if 1 not in bx]
             return boxes
         if len(p) == 3:
             calls = ["g", "gT"]
@@ -733,6 +741,7 @@ def run(ctx):
     info["build_s"] = round(time.time() - t1, 1)
     _S["exprs"] = exprs
     _S["syms"] = (a, b)
+    _S["n_depth2"] = info["n_depth2"]
     ctx.note(f"synthetic family: {info}")
     m = len(exprs)
     nch2 = max(1, min(512, m // 4))
@@ -743,9 +752,10 @@ def run(ctx):
               harvested_box="every integer of [1, rank bound] per symbol of the formula; at most 12 points per axis; "
                             "boxes with more than 20000 points are thinned to a deterministic sub-grid (class '|subgrid')",
               synthetic_depth="all trees of depth <= 2 over {a,b,1,2,3}; depth 3: op(X,Y) with "
-                              + ("X a step term (ceiling of a quotient, Max/Min of leaves, Heaviside of a sum), Y a monomial, op in + - * /"
+                              + ("X a step term (ceiling of a quotient, Max/Min of leaves, Heaviside of a sum), Y a monomial (both orders), op in - *"
                                  if q else "X, Y in T2 = monomials, sums, step terms of depth <= 2, every binary op"),
-              synthetic_boxes="lo=1, hi in {1..4} per symbol" + (" (two-symbol formulas: 8 of the 16 boxes in quick)" if q else ""),
+              synthetic_boxes=("depth<=2: hi=4 for every symbol, one-symbol formulas also hi=2; depth 3: hi=4" if q else
+                               "lo=1; depth<=2: every hi in {1..4} per symbol; depth 3: every hi in {2,3,4} per symbol"),
               synthetic_kinds=sorted(allowed))
 
 
